@@ -80,6 +80,14 @@ func writeEvidence(path, id, tier string, seed int64, eng *Engine, hs []*ssa.Fun
 		samples = append(samples, "no assertion reached")
 	}
 	notes := propertyNotes[id]
+	if buf, err := os.ReadFile(filepath.Join(verifRoot(), "notes.json")); err == nil {
+		var all map[string]struct{ Bounds, Outside, Assumptions []string }
+		if json.Unmarshal(buf, &all) == nil {
+			if n, ok := all[id]; ok {
+				notes.Bounds, notes.Outside, notes.Assumptions = n.Bounds, n.Outside, n.Assumptions
+			}
+		}
+	}
 	cov := map[string]interface{}{
 		"states":                        total.Paths,
 		"transitions":                   total.Instrs,
@@ -92,7 +100,8 @@ func writeEvidence(path, id, tier string, seed int64, eng *Engine, hs []*ssa.Fun
 		"functions_encoded":             fns,
 		"repo_functions_encoded":        repoFns,
 		"harnesses":                     perHarness,
-		"queries":                       map[string]int{"feasibility": total.Feasibility, "final": total.Final, "final_unsat": total.FinalUnsat, "final_sat": total.FinalSat, "unknown": total.Unknown},
+		"queries":                       map[string]int{"feasibility": total.Feasibility, "final": total.Final, "final_unsat": total.FinalUnsat, "final_sat": total.FinalSat, "unknown": total.Unknown, "answered_from_cache": total.Cached, "constant_folded_assertions": total.Trivial},
+		"query_cache":                   "a query whose path condition and goal have the same SHA-256 digest of their SMT text as an earlier query of the same harness is answered from that earlier solver verdict (re-execution repeats prefixes); only solver-decided queries are counted in evaluations",
 		"solver":                        "z3 5.1.0 (z3-new -in), logic ALL, integer encoding with explicit mod-2^k wrap",
 		"solver_time_s":                 round2(total.SolverDur.Seconds()),
 		"load_ssa_s":                    round2(eng.loadSeconds),
